@@ -59,8 +59,12 @@ type Cx struct {
 	ufOrder  []string
 	foldUsed map[string]*foldInfo
 	foldOrd  []string
+	foldHUsed map[string][3]string
+	foldHOrd  []string
+	foldInits map[string][]string
 	nfresh   int
 	axioms   []string
+	lemmasUsed []string
 }
 
 type foldInfo struct {
@@ -189,7 +193,7 @@ func (cx *Cx) sortOf(t types.Type) string {
 		name := "Sl_" + sortName(es)
 		if !cx.sortDone[name] {
 			cx.sortDone[name] = true
-			cx.sortDecl = append(cx.sortDecl, fmt.Sprintf("(declare-datatypes ((%s 0)) (((mk_%s (arr_%s (Array %s %s)) (len_%s %s))))))", name, name, name, cx.intSort(), es, name, cx.intSort()))
+			cx.sortDecl = append(cx.sortDecl, fmt.Sprintf("(declare-datatypes ((%s 0)) (((mk_%s (arr_%s (Array %s %s)) (len_%s %s)))))", name, name, name, cx.intSort(), es, name, cx.intSort()))
 		}
 		return name
 	case *types.Array:
@@ -555,7 +559,7 @@ func (cx *Cx) declUF(name, decl string) {
 // prelude emits sorts, uninterpreted string functions and spec functions.
 func (cx *Cx) prelude() string {
 	var b strings.Builder
-	b.WriteString("(set-option :produce-models true)\n")
+	b.WriteString("(set-option :produce-models true)\n(set-logic ALL)\n")
 	is := cx.intSort()
 	b.WriteString("(declare-sort Str 0)\n")
 	fmt.Fprintf(&b, "(declare-fun s_len (Str) %s)\n(declare-fun s_at (Str %s) %s)\n(declare-fun s_sub (Str %s %s) Str)\n(declare-fun s_cat (Str Str) Str)\n(declare-fun s_byte (%s) Str)\n", is, is, is, is, is, is)
